@@ -486,7 +486,10 @@ def m_int(interp, args, kw):
     if not has_sym(args):
         return NATIVE
     x = args[0]
-    if len(args) > 1:
+    if len(args) > 1 or "base" in kw:
+        base = args[1] if len(args) > 1 else kw["base"]
+        if base == 16 and isinstance(x, SStr) and not has_sym(base):
+            return V.to_int_hex(list(x.ch))
         raise Unsupported("int with base on symbolic")
     if isinstance(x, SStr):
         return V.to_int(list(x.ch))
